@@ -242,7 +242,8 @@ func c06FixedCase(name string) (string, any) {
 		}
 		defer s.close()
 		if err := s.call("AddTag tag/a time window", func(m *Manager) error {
-			return m.AddTag("tag/a", "#fff", `time:"2024-01-02 130000:2024-01-02 130010"`)
+			// the first stream lies exactly on the lower bound: an error of the size of the wait below shows
+			return m.AddTag("tag/a", "#fff", `time:"2024-01-02 130001:2024-01-02 130010"`)
 		}); err != nil {
 			return fail(s, "%v", err)
 		}
